@@ -1,3 +1,4 @@
 import MambaVerif.Props.C18
 import MambaVerif.Props.C14
 import MambaVerif.Props.C03
+import MambaVerif.Props.C10
